@@ -22,7 +22,8 @@ contract(CONN + '._receive_headers_frame', props=['C06', 'C07', 'C09', 'C10', 'C
          'es': '"END_STREAM" in frame.flags', 'prio': '"PRIORITY" in frame.flags',
          'open_in': 'count_open(self.streams, 1 - own_parity(self))',
          'wm_in': 'self.highest_inbound_stream_id', 'wm': 'watermark(self, frame.stream_id)', 'st0': ST0, 'dec0': 'g_dec',
-         'kh': KIND_H, 'ki': KIND_I, 'hr0': '(%s.headers_received if exists else None)' % FSM},
+         'kh': KIND_H, 'ki': KIND_I, 'hr0': '(%s.headers_received if exists else None)' % FSM,
+         'reset0': '((%s.stream_closed_by == StreamClosedBy.SEND_RST_STREAM) if exists else ((frame.stream_id in self._closed_streams) and self._closed_streams[frame.stream_id] == StreamClosedBy.SEND_RST_STREAM))' % FSM},
     ensures=[
         # C09: a stream is created only for an id of the peer's parity above every id the peer used before
         ('new-stream-id-rules', 'implies(not exists, sid > wm_in and sid % 2 != own_parity(self) and self.highest_inbound_stream_id == sid)', ['C09']),
@@ -70,7 +71,12 @@ contract(CONN + '._receive_headers_frame', props=['C06', 'C07', 'C09', 'C10', 'C
         dict(exc='InvalidBodyLengthError', props=['C16'], ensures=PEER_ERR),
         dict(exc='ProtocolError', props=['C17', 'C06', 'C09'], ensures=PEER_ERR),
     ],
-    on_raise=[('nothing-emitted', 'len(g_out) == len(old(g_out))')],
+    on_raise=[('nothing-emitted', 'len(g_out) == len(old(g_out))'),
+              # C20: a HEADERS frame racing our own reset (stream still registered, or remembered in the closed-stream
+              # memory) is never refused before its header block went through the decoder: whatever error follows
+              # (answered by RST_STREAM in _receive_frame), the compression context stays in sync, and no check that
+              # precedes decoding (idle-stream guard, concurrency limit) may turn the frame into a connection error
+              ('racing-headers-consume-their-block-first', 'implies(reset0 and conn_accepts(cst, CI_RECV_HEADERS), g_dec == dec0 + 1)', ['C20', 'C13'])],
     canary='len(result[1]) == 0')
 
 
